@@ -195,6 +195,21 @@ func traceAddr1(v ssa.Value, followCopies bool) *trace {
 				}
 				t.bases = append(t.bases, base{v, thr})
 				return
+			case *ssa.Call:
+				// an accessor that returns (a pointer into) storage of one of its parameters,
+				// e.g. ht.chain(h) = &ht.table[h&mask]: continue at the corresponding arguments
+				if sum := accessorSummary(x.Call.StaticCallee()); sum != nil {
+					t.fields = append(t.fields, sum.fields...)
+					t.owners = append(t.owners, sum.owners...)
+					for _, i := range sum.params {
+						if i < len(x.Call.Args) {
+							walk(x.Call.Args[i], thr || sum.thr)
+						}
+					}
+					return
+				}
+				t.bases = append(t.bases, base{v, thr})
+				return
 			default:
 				t.bases = append(t.bases, base{v, thr})
 				return
@@ -203,6 +218,82 @@ func traceAddr1(v ssa.Value, followCopies bool) *trace {
 	}
 	walk(v, false)
 	return t
+}
+
+type accessorSum struct {
+	params []int
+	fields []*types.Var
+	owners []types.Type
+	thr    bool
+}
+
+var accessorCache = map[*ssa.Function]*accessorSum{}
+var accessorBusy = map[*ssa.Function]bool{}
+
+// accessorSummary: fn is a function of the module with a single address-like
+// result, every return of which denotes storage reached from fn's parameters
+// by field/element selection only (no allocation, no call results, no globals).
+func accessorSummary(fn *ssa.Function) *accessorSum {
+	if fn == nil || fn.Blocks == nil || fn.Signature.Results().Len() != 1 {
+		return nil
+	}
+	if p := fnPkgPath(fn); p != modPath && !strings.HasPrefix(p, modPath+"/") {
+		return nil
+	}
+	switch fn.Signature.Results().At(0).Type().Underlying().(type) {
+	case *types.Pointer:
+	default:
+		return nil
+	}
+	if s, ok := accessorCache[fn]; ok {
+		return s
+	}
+	if accessorBusy[fn] {
+		return nil
+	}
+	accessorBusy[fn] = true
+	defer delete(accessorBusy, fn)
+	sum := &accessorSum{}
+	ok := true
+	nret := 0
+	seenP := map[int]bool{}
+	eachInstr(fn, func(in ssa.Instruction) {
+		ret, isRet := in.(*ssa.Return)
+		if !isRet || len(ret.Results) != 1 {
+			return
+		}
+		nret++
+		if k, isK := ret.Results[0].(*ssa.Const); isK && k.IsNil() {
+			return
+		}
+		tr := traceAddr(ret.Results[0])
+		if len(tr.fields) == 0 {
+			ok = false // returns a parameter itself or something opaque: not an interior accessor
+		}
+		for _, b := range tr.bases {
+			prm, isP := b.v.(*ssa.Parameter)
+			if !isP {
+				ok = false
+				continue
+			}
+			for i, q := range fn.Params {
+				if q == prm && !seenP[i] {
+					seenP[i] = true
+					sum.params = append(sum.params, i)
+				}
+			}
+			if b.throughPtr {
+				sum.thr = true
+			}
+		}
+		sum.fields = append(sum.fields, tr.fields...)
+		sum.owners = append(sum.owners, tr.owners...)
+	})
+	if !ok || nret == 0 || len(sum.params) == 0 {
+		sum = nil
+	}
+	accessorCache[fn] = sum
+	return sum
 }
 
 // isVarCell reports whether the Alloc is storage for a local variable whose
